@@ -148,7 +148,9 @@ pub struct FreqCase {
     /// index into PAIRS, or PAIRS.len() for the generated (x, kt) below
     pub pair: usize,
     /// d / kT for a generated pair
+    #[serde(default)]
     pub x: f64,
+    #[serde(default)]
     pub kt: f64,
     pub loops: u64,
     pub seed: u64,
